@@ -17,6 +17,9 @@ import scipy.sparse as sps
 
 from ..common import q, call_impl
 
+EXTRA_LEAN_MODULES = ("PymotoVerif.Props.C07LDAS",)
+EXTRA_THEOREMS = ["PymotoVerif.C07LDAS.ldas_solver_residual", "PymotoVerif.C07LDAS.ldas_solver_ok", "PymotoVerif.C07LDAS.ldas_solver_ok_history",
+                  "PymotoVerif.C07LDAS.linsolve_eq_ldas", "PymotoVerif.C07LDAS.linsolve_adjoint_ldas"]
 RULE = ("streams: linsolve (matrix class x dense/sparse format x real/complex matrix x real/complex rhs x vector/block x "
         "solver override x hermitian/symmetric flags, incl. FE stiffness matrices with boundary conditions and random "
         "matrices with decoupled dofs), inverse, soe (ALL partitions of index sets n<=4 (5 thorough) + random larger, "
